@@ -89,7 +89,7 @@ def alloc_kernel_lemma(files, rep):
                 seen.setdefault(key, (seq, os.path.basename(f)))
         except A.LemmaError as e:
             rep.inconclusive.append('alloc-kernel: unsupported: %s (%s)' % (e, os.path.basename(f)))
-    if info['programs'] and not seen:
+    if info['programs'] >= 20 and not seen:       # (a handful of leaf programs may well contain no run-time allocation)
         rep.inconclusive.append('alloc-kernel: unsupported: no inline allocation sequence recognised in any emitted module')
     failed = None
     for (size, _), (seq, prog) in sorted(seen.items(), key=lambda kv: kv[0][0]):
